@@ -378,7 +378,7 @@ class _GroupElem(ABC):
 
         for d in range(dof_n):
             columns = np.arange(d, ndof, dof_n)
-            assembly[:, columns] = np.array(connect) * dof_n + d
+            assembly[:, columns] = np.array(connect, dtype=np.int64) * dof_n + d
 
         return assembly
 
